@@ -17,6 +17,7 @@ type pathEnd struct{ why string }
 type goPanic struct{ msg string } // a Go-level panic raised inside verifapi.ExpectPanic
 
 type Machine struct {
+	pools        map[*Value][]Value // sync.Pool contents (see the intrinsic)
 	prog         *ssa.Program
 	sol          *Solver
 	pc           []*Term
